@@ -224,6 +224,54 @@ def check_partial(smi):
     return Outcome(nontrivial=bool(ws), outcome=f"partial{min(len(ws), 9)}", fails=fails, transitions=n)
 
 
+# ------------------------------------------------------------------ hydrogens kept as atoms by their map numbers
+def gen_sides(tier, seed):
+    """reaction sides that carry mapped explicit hydrogens (explicit-H corpus, hand-written reactions), map numbers shifted so that they differ from the node ids"""
+    from mc.curated import CURATED, minimal_explicit
+
+    seen = set()
+    rx = [(rid, s) for rid, s in er.corpus_reactions() if rid.startswith("graph")] + [(f"cur#{k}", minimal_explicit(v)) for k, v in CURATED.items()]
+    for rid, s in rx:
+        if "[H" not in s:
+            continue
+        maps = er.all_maps(s)
+        for shift in (0, 3):
+            t = er.renumber(s, {m: m + shift for m in maps}) if shift else s
+            for side in er.split(t):
+                if "[H" in side and side not in seen:
+                    seen.add(side)
+                    yield side
+
+
+def check_preserved_h(side):
+    from synkit.IO.chem_converter import smiles_to_graph, graph_to_smi
+
+    ps = Chem.SmilesParserParams()
+    ps.removeHs = False
+    m = Chem.MolFromSmiles(side, ps)
+    if m is None:
+        return Outcome(skipped="unparsable")
+    hmaps = sorted(a.GetAtomMapNum() for a in m.GetAtoms() if a.GetSymbol() == "H" and a.GetAtomMapNum())
+    want, want_h = canon_noh(side), total_h(side)
+    fails = []
+    n = 0
+    for name, keep in (("all", hmaps), ("first", hmaps[:1]), ("last", hmaps[-1:])):
+        g = smiles_to_graph(side, drop_non_aam=False, use_index_as_atom_map=False)
+        if g is None:
+            return Outcome(skipped="smiles_to_graph_none")
+        out = graph_to_smi(g, preserve_atom_maps=list(keep))
+        n += 1
+        ok = out is not None and canon_noh(out) == want and total_h(out) == want_h
+        if ok:
+            mo = Chem.MolFromSmiles(out, ps)
+            kept = {a.GetAtomMapNum() for a in mo.GetAtoms() if a.GetSymbol() == "H"}
+            ok = set(keep) <= kept
+        if not ok:
+            fails.append(Fail("preserved_hydrogens", f"{side}: keeping hydrogens {list(keep)} gives {out}", f"{want} with {want_h} H and those hydrogens as atoms", key_extra=name))
+            break
+    return Outcome(nontrivial=bool(hmaps), outcome=f"keep{min(len(hmaps), 9)}", fails=fails, transitions=n)
+
+
 # ------------------------------------------------------------------ GML
 def rule_eq_node(a, b):
     return a.get("element") == b.get("element") and _ch(a) == _ch(b)
@@ -348,6 +396,8 @@ def subchecks(tier, seed):
         Sub("molecules", gen_mol, check_mol, key=lambda c: c, rule=RULE[tier]),
         Sub("partially_explicit", gen_mol, check_partial, key=lambda c: c, rule="every molecule written with one hydrogen of an atom as an atom and the atom's other hydrogens as a count (2 such atoms each; thorough 6): "
             "h_to_implicit and h_to_explicit keep the molecule and the hydrogen total and do not touch their input"),
+        Sub("preserved_hydrogens", gen_sides, check_preserved_h, key=lambda c: c, rule="every side of an explicit-hydrogen reaction (corpus + hand-written; map numbers as written and shifted by 3 so that they differ from node ids and partly coincide with them) "
+            "written back with all / the first / the last of its mapped hydrogens kept as atoms: molecule and hydrogen total unchanged, the kept hydrogens present"),
         Sub("gml", gen_rxn, check_gml, key=lambda c: c[0], rule=RULE[tier]),
     ]
 
